@@ -590,6 +590,7 @@ func restRules(c *Check, w *World, tb *TB, ef *Effects, pfx string, only []strin
 		// response carries the library's result
 		if respField != "" {
 			found := false
+			altered := ""
 			EachInstr(r.handler, func(in ssa.Instruction) {
 				st, ok := in.(*ssa.Store)
 				if !ok {
@@ -606,12 +607,23 @@ func restRules(c *Check, w *World, tb *TB, ef *Effects, pfx string, only []strin
 					if alt.Op == "extract" && alt.Sym == "0" && alt.Args[0].String() == want.String() || alt.String() == want.String() {
 						ok2 = true
 					}
+					// a URL result is rendered by its own String method, nothing else
+					if respField == "URL" && alt.String() == "call((*net/url.URL).String; extract(0; "+want.String()+"))" {
+						ok2 = true
+					}
+					if respField == "URL" && !ok2 && alt.ContainsStr(want.String()) {
+						altered = alt.String()
+					}
 				}
 				if ok2 {
 					found = true
 				}
 			})
-			c.Decide(found, pfx+".2", fn, "response."+respField, "the response field "+respField+" is the library's result", "the response field "+respField+" is not the first result of otp."+lib, pos)
+			if altered != "" {
+				c.Bad(pfx+".2", fn, "response."+respField, "the response field "+respField+" is "+clip(altered, 200)+": the library's URL is post-processed before it is returned", pos)
+			} else {
+				c.Decide(found, pfx+".2", fn, "response."+respField, "the response field "+respField+" is the library's result", "the response field "+respField+" is not the first result of otp."+lib, pos)
+			}
 		}
 		// the decode target is a per-request local
 		c.Decide(hi.reqRoot == "alloc", pfx+".5", fn, "request-object", "the request is decoded into a fresh per-request local", "the request is decoded into "+hi.reqRoot+": fields omitted by a request keep the values of an earlier request", w.Pos(r.handler.Pos()))
@@ -621,8 +633,8 @@ func restRules(c *Check, w *World, tb *TB, ef *Effects, pfx string, only []strin
 	checkArgs("/hotp/generate", "GenerateHOTP", []interface{}{secretForms, []string{"$counter"}, paramSpecs("Algorithm", "Digits")}, "Code")
 	checkArgs("/hotp/validate", "ValidateHOTP", []interface{}{secretForms, []string{"$code"}, []string{"$counter"}, paramSpecs("Algorithm", "Digits", "Skew")}, "Valid")
 	urlSpecs := []fieldSpec{{"Issuer", []string{"$issuer"}}, {"Secret", secretForms}, {"Period", []string{"$period"}}, {"Digits", []string{tDigits}}, {"Algorithm", []string{tAlgo}}, {"AccountName", []string{"$account_name"}}}
-	checkArgs("/otp/url", "GenerateTOTPURL", []interface{}{urlSpecs}, "")
-	checkArgs("/otp/url", "GenerateHOTPURL", []interface{}{urlSpecs}, "")
+	checkArgs("/otp/url", "GenerateTOTPURL", []interface{}{urlSpecs}, "URL")
+	checkArgs("/otp/url", "GenerateHOTPURL", []interface{}{urlSpecs}, "URL")
 	var suiteArgsSeen []string
 	suiteArg := func(g string) string {
 		// the suite handed to the library: raw_suite, when given, selects the registered suite; otherwise the
